@@ -1062,5 +1062,20 @@ func main() {
 		gen := nsx.NewG(g.Fork())
 		one(r, gen.Case())
 	}
+	// ill-typed stream (C12 "meaningless but syntactically valid", C08 rejection): grammatical scripts in which about
+	// one choice in seven puts an expression of an arbitrary type where an account or a monetary is expected
+	W := 400
+	if r.Thorough() {
+		W = 10000
+	}
+	wg := vx.NewRng(r.Seed ^ 0x111)
+	for i := 0; i < W; i++ {
+		gen := nsx.NewG(wg.Fork())
+		gen.BadRate, gen.Wild = 7, true
+		in := gen.Case()
+		in.Note = "ill-typed"
+		one(r, in)
+		r.Count("ill-typed-stream")
+	}
 	r.Finish()
 }
